@@ -6,7 +6,7 @@ From NDB Require Import Base.Bytes Base.Bytes_proofs BTree.BTree BTree.Spec BTre
 
 (* ---------- next page id is monotone ---------- *)
 Definition ins_next (r : ins_res) : N :=
-  match r with IDone _ n | ISplit _ n _ _ | IErr _ n _ | IPanic _ n => n end.
+  match r with IDone _ n | ISplit _ n _ _ | IErr _ n _ => n end.
 
 Lemma alloc_next n p n' : alloc n = Some (p, n') -> p = n /\ n' = n + 1.
 Proof. unfold alloc. destruct (n <? bt_max_pages); [|discriminate]. intro H. inversion H. split; reflexivity. Qed.
@@ -14,19 +14,17 @@ Proof. unfold alloc. destruct (n <? bt_max_pages); [|discriminate]. intro H. inv
 Lemma ins_leaf_mono h n p cells r d k v : n <= ins_next (ins_leaf h n p cells r d k v).
 Proof.
   unfold ins_leaf. destruct (leaf_can_insert cells d k); [cbn; lia|].
-  destruct (split_leaf_entries cells k v) as [a b].
+  destruct (leaf_split_point (leaf_entries cells k v)) as [mid|]; [|cbn; lia].
   destruct (alloc n) as [[rid n']|] eqn:E; [|cbn; lia].
-  apply alloc_next in E. destruct E as [_ ->].
-  destruct (negb (leaf_fits b)); [cbn; lia|]. destruct (negb (leaf_fits a)); cbn; lia.
+  apply alloc_next in E. destruct E as [_ ->]. cbn; lia.
 Qed.
 Lemma ins_parent_mono h n p pos sep rid : n <= ins_next (ins_parent h n p pos sep rid).
 Proof.
   unfold ins_parent. destruct (hget h p) as [[cells r d|lm cells]|]; try (cbn; lia).
   destruct (int_can_insert cells sep); [cbn; lia|].
+  destruct (int_split_point (insert_at pos (sep, rid) cells)) as [mid|]; [|cbn; lia].
   destruct (alloc n) as [[rp n']|] eqn:E; [|cbn; lia].
-  apply alloc_next in E. destruct E as [_ ->].
-  match goal with |- context [negb (int_fits ?x)] => destruct (negb (int_fits x)) end; [cbn; lia|].
-  match goal with |- context [negb (int_fits ?x)] => destruct (negb (int_fits x)) end; cbn; lia.
+  apply alloc_next in E. destruct E as [_ ->]. cbn; lia.
 Qed.
 Lemma ins_mono fuel : forall h n p k v, n <= ins_next (ins fuel h n p k v).
 Proof.
@@ -34,13 +32,13 @@ Proof.
   destruct (hget h p) as [[cells r d|lm cells]|]; [apply ins_leaf_mono| |cbn; lia].
   destruct (child_for_key lm cells k) as [child pos].
   pose proof (IH h n child k v) as H.
-  destruct (ins f h n child k v) as [h' n'|h' n' sep rid|h' n' e|h' n']; cbn [ins_next] in *; try exact H.
+  destruct (ins f h n child k v) as [h' n'|h' n' sep rid|h' n' e]; cbn [ins_next] in *; try exact H.
   pose proof (ins_parent_mono h' n' p pos sep rid). lia.
 Qed.
 Lemma insert_mono st k v : st_next st <= st_next (fst (insert st k v)).
 Proof.
   unfold insert. pose proof (ins_mono depth_fuel (st_heap st) (st_next st) (st_root st) k v) as H.
-  destruct (ins depth_fuel (st_heap st) (st_next st) (st_root st) k v) as [h' n'|h' n' sep rid|h' n' e|h' n'];
+  destruct (ins depth_fuel (st_heap st) (st_next st) (st_root st) k v) as [h' n'|h' n' sep rid|h' n' e];
     cbn [ins_next] in H; cbn [fst st_next]; try exact H.
   destruct (alloc n') as [[nr n'']|] eqn:E; [|cbn [fst st_next]; exact H].
   apply alloc_next in E. destruct E as [_ ->].
@@ -81,21 +79,20 @@ Lemma alloc_4 : alloc (bt_first_data_page + 2) = Some (bt_first_data_page + 2, b
 Proof. reflexivity. Qed.
 
 Lemma insert_single st l k v : SL st l -> has_key k l = false ->
-  st_next (fst (insert st k v)) = st_next st ->
+  st_next (fst (insert st k v)) = st_next st -> res_failed (snd (insert st k v)) = false ->
   SL (fst (insert st k v)) (s_insert k v l) /\ snd (insert st k v) = RUnit.
 Proof.
   intros (Hr & Hn & [dead Hg] & Hs) Hk.
   unfold insert, depth_fuel. cbn [ins]. rewrite Hg. unfold ins_leaf.
   destruct (leaf_can_insert l dead k).
-  - cbn [fst snd st_next st_root st_heap]. intros _. split; [|reflexivity].
+  - cbn [fst snd st_next st_root st_heap]. intros _ _. split; [|reflexivity].
     unfold SL. cbn [st_next st_root st_heap]. split; [exact Hr|]. split; [exact Hn|]. split.
     + exists dead. rewrite hget_hset_same, (leaf_insert_refines l k v (ssorted_wsorted l Hs)). reflexivity.
     + apply ssorted_s_insert; assumption.
-  - destruct (split_leaf_entries l k v) as [a b]. rewrite Hn, alloc_3.
-    destruct (negb (leaf_fits b)); [cbn [fst st_next]; intro H; exfalso; revert H; vm_compute; discriminate|].
-    destruct (negb (leaf_fits a)); [cbn [fst st_next]; intro H; exfalso; revert H; vm_compute; discriminate|].
-    rewrite alloc_4.
-    destruct (int_can_insert [] (fst (hd ([], 0) b))); cbn [fst st_next]; intro H; exfalso; revert H; vm_compute; discriminate.
+  - destruct (leaf_split_point (leaf_entries l k v)) as [mid|].
+    + rewrite Hn, alloc_3, alloc_4.
+      destruct (int_can_insert [] _); cbn [fst st_next]; intro H; exfalso; revert H; vm_compute; discriminate.
+    + cbn [fst snd res_failed]. intros _ X. discriminate X.
 Qed.
 
 Lemma find_leaf_single st l k dead : st_root st = bt_first_data_page ->
@@ -152,10 +149,10 @@ Qed.
 (* ---------- the refinement for one-leaf histories ---------- *)
 Lemma step_single st l o : SL st l ->
   match o with OInsert k _ => has_key k l = false | _ => True end ->
-  st_next (fst (step st o)) = st_next st ->
+  st_next (fst (step st o)) = st_next st -> res_failed (snd (step st o)) = false ->
   SL (fst (step st o)) (fst (s_step l o)) /\ snd (step st o) = snd (s_step l o).
 Proof.
-  intros H Hk Hn. destruct o as [k v|k v|k|k lim|]; cbn [step s_step fst snd] in *.
+  intros H Hk Hn Hf. destruct o as [k v|k v|k|k lim|]; cbn [step s_step fst snd] in *.
   - apply insert_single; assumption.
   - pose proof (delete_single st l k v H) as [H1 H2].
     destruct (s_delete k v l) as [b l'] eqn:E. cbn [fst snd] in *. split; assumption.
@@ -165,10 +162,10 @@ Proof.
 Qed.
 
 Lemma run_single ops : forall st l, SL st l -> dup_from l ops = false ->
-  st_next (fst (run_from st ops)) = st_next st ->
+  st_next (fst (run_from st ops)) = st_next st -> existsb res_failed (snd (run_from st ops)) = false ->
   SL (fst (run_from st ops)) (fst (s_run_from l ops)) /\ snd (run_from st ops) = snd (s_run_from l ops).
 Proof.
-  induction ops as [|o t IH]; intros st l H Hd Hn; cbn [run_from s_run_from fst snd] in *; [split; [exact H|reflexivity]|].
+  induction ops as [|o t IH]; intros st l H Hd Hn Hf; cbn [run_from s_run_from fst snd] in *; [split; [exact H|reflexivity]|].
   pose proof (step_mono st o) as M1.
   pose proof (step_single st l o H) as Hstep.
   destruct (step st o) as [st1 r] eqn:E1. cbn [fst snd] in *.
@@ -178,12 +175,13 @@ Proof.
     apply orb_false_elim in Hd. exact Hd. }
   destruct Hd' as [Hk Hd'].
   destruct (s_step l o) as [l1 sr] eqn:E2. cbn [fst snd] in *.
-  destruct (run_from st1 t) as [st2 rs] eqn:E3. cbn [fst snd] in *.
+  destruct (run_from st1 t) as [st2 rs] eqn:E3. cbn [fst snd existsb] in *.
+  apply orb_false_elim in Hf. destruct Hf as [Hf1 Hf2].
   assert (Hn1 : st_next st1 = st_next st) by lia.
-  destruct (Hstep Hk Hn1) as [HS1 Hr1].
+  destruct (Hstep Hk Hn1 Hf1) as [HS1 Hr1].
   specialize (IH st1 l1 HS1 Hd'). rewrite E3 in IH. cbn [fst snd] in IH.
   assert (Hn2 : st_next st2 = st_next st1) by lia.
-  destruct (IH Hn2) as [HS2 Hr2].
+  destruct (IH Hn2 Hf2) as [HS2 Hr2].
   destruct (s_run_from l1 t) as [l2 srs]. cbn [fst snd] in *.
   split; [exact HS2|]. rewrite Hr1, Hr2. reflexivity.
 Qed.
@@ -194,11 +192,11 @@ Proof. destruct l as [|[k v] t]; cbn; [reflexivity|]. destruct k; reflexivity. Q
 (* for every history in which no key is ever stored twice and no page is allocated (no split):
    every operation returns what the sorted multimap returns, and the final full scan is the multimap *)
 Theorem single_leaf_refines ops :
-  has_dup ops = false -> st_next (fst (run ops)) = bt_first_data_page + 1 ->
+  has_dup ops = false -> has_failed_op ops = false -> st_next (fst (run ops)) = bt_first_data_page + 1 ->
   snd (run ops) = snd (s_run ops) /\ scan_all (fst (run ops)) = inl (fst (s_run ops)).
 Proof.
-  intros Hd Hn. unfold run, s_run, has_dup in *.
-  destruct (run_single ops create [] SL_create Hd Hn) as [HS Hr].
+  intros Hd Hf Hn. unfold run, s_run, has_dup, has_failed_op in *.
+  destruct (run_single ops create [] SL_create Hd Hn Hf) as [HS Hr].
   split; [exact Hr|]. unfold scan_all. rewrite (scan_single _ _ [] HS), s_from_nil. reflexivity.
 Qed.
 
@@ -207,7 +205,7 @@ Qed.
 Example single_leaf_nonvacuous :
   let ops := [OInsert [3] 30; OInsert [1] 10; OInsert [2; 7] 27; OInsert [2] 20; ODelete [1] 10; ODelete [3] 31;
               OLookup [2]; OScan [2] 5; OReopen; OInsert [1] 11; OLookup [1]] in
-  has_dup ops = false /\ st_next (fst (run ops)) = bt_first_data_page + 1 /\
+  has_dup ops = false /\ has_failed_op ops = false /\ st_next (fst (run ops)) = bt_first_data_page + 1 /\
   snd (run ops) = [RUnit; RUnit; RUnit; RUnit; RBool true; RBool false; ROpt (Some 20);
                    RList [([2], 20); ([2; 7], 27); ([3], 30)]; RUnit; RUnit; ROpt (Some 11)].
 Proof. vm_compute. repeat split; reflexivity. Qed.
@@ -237,21 +235,20 @@ Proof.
 Qed.
 
 Lemma insert_single_w st l k v : SLw st l ->
-  st_next (fst (insert st k v)) = st_next st ->
+  st_next (fst (insert st k v)) = st_next st -> res_failed (snd (insert st k v)) = false ->
   SLw (fst (insert st k v)) (s_insert k v l) /\ snd (insert st k v) = RUnit.
 Proof.
   intros (Hr & Hn & [dead Hg] & Hs).
   unfold insert, depth_fuel. cbn [ins]. rewrite Hg. unfold ins_leaf.
   destruct (leaf_can_insert l dead k).
-  - cbn [fst snd st_next st_root st_heap]. intros _. split; [|reflexivity].
+  - cbn [fst snd st_next st_root st_heap]. intros _ _. split; [|reflexivity].
     unfold SLw. cbn [st_next st_root st_heap]. split; [exact Hr|]. split; [exact Hn|]. split.
     + exists dead. rewrite hget_hset_same, (leaf_insert_refines l k v Hs). reflexivity.
     + apply s_insert_wsorted; assumption.
-  - destruct (split_leaf_entries l k v) as [a b]. rewrite Hn, alloc_3.
-    destruct (negb (leaf_fits b)); [cbn [fst st_next]; intro H; exfalso; revert H; vm_compute; discriminate|].
-    destruct (negb (leaf_fits a)); [cbn [fst st_next]; intro H; exfalso; revert H; vm_compute; discriminate|].
-    rewrite alloc_4.
-    destruct (int_can_insert [] (fst (hd ([], 0) b))); cbn [fst st_next]; intro H; exfalso; revert H; vm_compute; discriminate.
+  - destruct (leaf_split_point (leaf_entries l k v)) as [mid|].
+    + rewrite Hn, alloc_3, alloc_4.
+      destruct (int_can_insert [] _); cbn [fst st_next]; intro H; exfalso; revert H; vm_compute; discriminate.
+    + cbn [fst snd res_failed]. intros _ X. discriminate X.
 Qed.
 
 Lemma cursor_single_w st l k : SLw st l -> cursor_lower_bound st k = inl (l, 0, length (lt_prefix k l)).
@@ -279,15 +276,15 @@ Qed.
 Definition is_delete (o : op) : bool := match o with ODelete _ _ => true | _ => false end.
 
 Lemma run_single_w ops : forall st l, SLw st l -> existsb is_delete ops = false ->
-  st_next (fst (run_from st ops)) = st_next st ->
+  st_next (fst (run_from st ops)) = st_next st -> existsb res_failed (snd (run_from st ops)) = false ->
   SLw (fst (run_from st ops)) (fst (s_run_from l ops)) /\ snd (run_from st ops) = snd (s_run_from l ops).
 Proof.
-  induction ops as [|o t IH]; intros st l H Hd Hn; cbn [run_from s_run_from fst snd] in *; [split; [exact H|reflexivity]|].
+  induction ops as [|o t IH]; intros st l H Hd Hn Hf; cbn [run_from s_run_from fst snd] in *; [split; [exact H|reflexivity]|].
   cbn [existsb] in Hd. apply orb_false_elim in Hd. destruct Hd as [Ho Hd].
   pose proof (step_mono st o) as M1.
-  assert (Hstep : st_next (fst (step st o)) = st_next st ->
+  assert (Hstep : st_next (fst (step st o)) = st_next st -> res_failed (snd (step st o)) = false ->
                   SLw (fst (step st o)) (fst (s_step l o)) /\ snd (step st o) = snd (s_step l o)).
-  { intro Hn1. destruct o as [k v|k v|k|k lim|]; cbn [step s_step fst snd is_delete] in *.
+  { intros Hn1 Hf1. destruct o as [k v|k v|k|k lim|]; cbn [step s_step fst snd is_delete] in *.
     - apply insert_single_w; assumption.
     - discriminate Ho.
     - split; [exact H|]. rewrite (lookup_single_w st l k H). reflexivity.
@@ -296,12 +293,13 @@ Proof.
   destruct (step st o) as [st1 r] eqn:E1. cbn [fst snd] in *.
   pose proof (run_from_mono t st1) as M2.
   destruct (s_step l o) as [l1 sr] eqn:E2. cbn [fst snd] in *.
-  destruct (run_from st1 t) as [st2 rs] eqn:E3. cbn [fst snd] in *.
+  destruct (run_from st1 t) as [st2 rs] eqn:E3. cbn [fst snd existsb] in *.
+  apply orb_false_elim in Hf. destruct Hf as [Hf1 Hf2].
   assert (Hn1 : st_next st1 = st_next st) by lia.
-  destruct (Hstep Hn1) as [HS1 Hr1].
+  destruct (Hstep Hn1 Hf1) as [HS1 Hr1].
   specialize (IH st1 l1 HS1 Hd). rewrite E3 in IH. cbn [fst snd] in IH.
   assert (Hn2 : st_next st2 = st_next st1) by lia.
-  destruct (IH Hn2) as [HS2 Hr2].
+  destruct (IH Hn2 Hf2) as [HS2 Hr2].
   destruct (s_run_from l1 t) as [l2 srs]. cbn [fst snd] in *.
   split; [exact HS2|]. rewrite Hr1, Hr2. reflexivity.
 Qed.
@@ -309,18 +307,18 @@ Qed.
 (* equal keys allowed: as long as the history has no delete and no page is allocated, every insert,
    lookup (newest entry of the key), seek+scan and reopen returns what the sorted multimap returns *)
 Theorem single_leaf_dups_no_delete ops :
-  existsb is_delete ops = false -> st_next (fst (run ops)) = bt_first_data_page + 1 ->
+  existsb is_delete ops = false -> has_failed_op ops = false -> st_next (fst (run ops)) = bt_first_data_page + 1 ->
   snd (run ops) = snd (s_run ops) /\ scan_all (fst (run ops)) = inl (fst (s_run ops)).
 Proof.
-  intros Hd Hn. unfold run, s_run in *.
+  intros Hd Hf Hn. unfold run, s_run, has_failed_op in *.
   assert (H0 : SLw create []).
   { unfold SLw, create. cbn. repeat split; auto. exists 0. reflexivity. }
-  destruct (run_single_w ops create [] H0 Hd Hn) as [HS Hr].
+  destruct (run_single_w ops create [] H0 Hd Hn Hf) as [HS Hr].
   split; [exact Hr|]. unfold scan_all. rewrite (scan_single_w _ _ [] HS), s_from_nil. reflexivity.
 Qed.
 
 Example single_leaf_dups_nonvacuous :
   let ops := [OInsert [7] 1; OInsert [7] 2; OInsert [5] 9; OInsert [7] 3; OLookup [7]; OScan [6] 10] in
-  existsb is_delete ops = false /\ st_next (fst (run ops)) = bt_first_data_page + 1 /\ has_dup ops = true /\
+  existsb is_delete ops = false /\ has_failed_op ops = false /\ st_next (fst (run ops)) = bt_first_data_page + 1 /\ has_dup ops = true /\
   snd (run ops) = [RUnit; RUnit; RUnit; RUnit; ROpt (Some 3); RList [([7], 3); ([7], 2); ([7], 1)]].
 Proof. vm_compute. repeat split; reflexivity. Qed.
